@@ -94,7 +94,7 @@ def mc_layout(ck, max_ops, pages=(1, 2, 3)):
     max_ops calls, every page size) and runs its negative controls."""
     st = tr = 0
     base = {"NCols": 2, "MaxOps": max_ops, "FaultAt": "{}", "EmptyWriteEmitsPages": "FALSE",
-            "FooterSkipsDroppedBytes": "FALSE", "FooterCountsAddedRows": "FALSE", "SwallowSinkError": "FALSE"}
+            "FooterSkipsDroppedBytes": "FALSE", "FooterCountsAddedRows": "FALSE", "SwallowSinkError": "FALSE", "ChildPagesHoldOneMore": "FALSE"}
     for mp in pages:
         c = dict(base, MaxPage=mp)
         r = model_check("MC_Layout", c, ["TypeOK", "FooterTruthful", "PagesLegal", "Framing", "EmptyWriteInert", "FaultReported"],
@@ -110,6 +110,8 @@ def mc_layout(ck, max_ops, pages=(1, 2, 3)):
         c.update(sw)
         model_check("MC_Layout", c, ["FooterTruthful"], tag="mclayoutneg" + name, expect_violation="FooterTruthful")
         neg.append("MC_Layout with %s: FooterTruthful violated as required" % "+".join(sw))
+    model_check("MC_Layout", dict(base, MaxPage=1, MaxOps=5, ChildPagesHoldOneMore="TRUE"), ["PagesLegal"], tag="mclayoutnegP", expect_violation="PagesLegal")
+    neg.append("MC_Layout with ChildPagesHoldOneMore: PagesLegal violated as required")
     ck.cov["states"] = ck.cov.get("states", 0) + st
     ck.cov["transitions"] = ck.cov.get("transitions", 0) + tr
     ck.cov.setdefault("negative_controls", []).extend(neg)
@@ -623,7 +625,7 @@ def c09():
     ck = Check("C09", "fault_enumeration")
     q = ck.quick()
     base = {"MaxPage": 2, "NCols": 2, "MaxOps": 5, "FaultAt": "{" + ",".join(str(i) for i in range(1, 30)) + "}", "EmptyWriteEmitsPages": "FALSE",
-            "FooterSkipsDroppedBytes": "FALSE", "FooterCountsAddedRows": "FALSE", "SwallowSinkError": "FALSE"}
+            "FooterSkipsDroppedBytes": "FALSE", "FooterCountsAddedRows": "FALSE", "SwallowSinkError": "FALSE", "ChildPagesHoldOneMore": "FALSE"}
     r = model_check("MC_Layout", base, ["TypeOK", "FaultReported"], workers=8, tag="mclayoutfault")
     ck.cov["states"], ck.cov["transitions"] = r["distinct"], r["states"]
     model_check("MC_Layout", dict(base, SwallowSinkError="TRUE", MaxOps=4), ["FaultReported"], tag="mclayoutswallow", expect_violation="FaultReported")
@@ -1606,6 +1608,11 @@ def c15():
     # plus a nested fixed example with tags and an embedded struct
     progs.append(Program("fixed:Nested", "package main\n\ntype L3 struct {\n\tV int64 `parquet:\"v\"`\n\tW *string\n}\n\ntype L2 struct {\n\tK  int32\n\tIn *L3 `parquet:\"in\"`\n\tOn bool\n}\n\ntype Flat struct {\n\tX float64\n\tY *float32\n}\n\n"
                          "type Rec struct {\n\tID  int64 `parquet:\"id\"`\n\tOpt *L2\n\tReq Flat\n\tS   string\n}\n"))
+    # column names a file may carry: snake_case, camelCase, upper case, digits, Go keywords, names differing only in case
+    progs.append(Program("fixed:Names", "package main\n\ntype Inner struct {\n\tLat  float64 `parquet:\"lat_deg\"`\n\tType *string `parquet:\"type\"`\n\tRange int64 `parquet:\"range\"`\n}\n\n"
+                         "type Rec struct {\n\tID     int64   `parquet:\"id\"`\n\tAB     int32   `parquet:\"a_b\"`\n\tX1     *int64  `parquet:\"x1\"`\n\tFunc   string  `parquet:\"func\"`\n"
+                         "\tLoc    *Inner  `parquet:\"loc_info\"`\n\tCamelC bool    `parquet:\"camelCase\"`\n\tUp     float32 `parquet:\"UPPER\"`\n\tMap    *bool   `parquet:\"map\"`\n"
+                         "\tAbc    int32   `parquet:\"abc\"`\n\tABC2   int64   `parquet:\"aBC\"`\n}\n"))
     build_programs(progs)
     ok = usable(progs)
     load_schemas(ok)
